@@ -366,7 +366,7 @@ type RelayWorld struct {
 var relayPeerAddrs = []string{
 	"127.0.1.1:7000", "127.0.1.2:7000", "127.0.1.3:7000", "127.0.1.4:7000", // backends
 	"127.0.2.1:5060", "127.0.2.1:5070", "127.0.2.2:5060", "127.0.2.2:5070", // route next hops
-	"127.0.3.1:5080", "127.0.3.2:5090", "127.0.3.3:5060", "127.0.3.3:5061", // static next hops
+	"127.0.3.1:5080", "127.0.3.2:5090", "127.0.3.3:5060", "127.0.3.3:5061", "127.0.3.4:5085", // static next hops
 	"127.0.0.9:5060", "127.0.0.9:5070", "127.0.0.8:5060", "127.0.0.8:5070", "127.0.0.7:5060", // user agents / upstream hops
 }
 
